@@ -295,8 +295,14 @@ CallResult RunCtx::call(Session& s, const CallSpec& c, int stepno, bool monitors
         errs_before = s.doc->get_errors().size();
         warns_before = s.doc->get_warnings().size();
     }
+    const uint32_t clock_before = UTAP::tracker.position;
     alarm((unsigned)watchdog_s);
     CallResult r = run_call(s, c, stepno);
+    // once the 32-bit position clock has wrapped, positions of documents that straddle the wrap are meaningless: that
+    // is finding F-C15-2 (reported under C15), not a second, independent C06 defect
+    static bool clock_wrapped = false;
+    if (UTAP::tracker.position < clock_before)
+        clock_wrapped = true;
     alarm(300);
     if (g_shared)
         g_shared->in_call = 0;
@@ -322,7 +328,9 @@ CallResult RunCtx::call(Session& s, const CallSpec& c, int stepno, bool monitors
         if (violation("C01", "non-std-exception", std::string{"non-std-exception|"} + entry_name(c.entry) + "|" + hint, c.str()))
             return r;
     }
-    if (monitors && block_call && s.doc && !s.tainted && !r.env_faulted() && is_armed("C06")) {
+    if (monitors && block_call && s.doc && !s.tainted && !r.env_faulted() && is_armed("C06") && clock_wrapped)
+        count("c06-block-calls-skipped-after-clock-wrap");
+    if (monitors && block_call && s.doc && !s.tainted && !r.env_faulted() && is_armed("C06") && !clock_wrapped) {
         std::string w6;
         try {
             w6 = check_c06_block(*s.doc, errs_before, warns_before, c.bytes, c.entry == E_PROP_FILE ? std::string{} : c.xpath);
